@@ -13,7 +13,7 @@ TEXT = {
          "the model decides 'has a definition' with its own regexes built from the abstract patterns; continue_after_failed_step worlds only check the mapping"),
  "C03": ("exploration", "run-sim", "5.C03",
          "Every element's status is checked bottom-up against the ACTUAL statuses of its children as produced by real runs (stop/abort remainders, hook errors, dry-run, de-selection, retries); the status classification table is checked once per process. Sampled worlds; cells reached are listed in the evidence.",
-         "childless elements (and roll-ups containing one) are out of scope as the property says; elements whose own hook or cleanup failed are left to C12/C13"),
+         "childless elements (and roll-ups containing one) are out of scope as the property says; elements whose own hook or cleanup failed are left to C12/C13; hooks and steps also read feature/rule/scenario.status and walk the model mid-run (observer histories)"),
  "C09": ("exploration", "run-sim", "5.C09",
          "Executed-scenario set (events of hooks and step functions), statuses of de-selected scenarios and container roll-up compared with the model's tag inheritance + its own Boolean AST of the expression, with faults active elsewhere in the run. Sampled worlds.",
          "tag expression rendered from the model's AST in v2 / v1 (CNF) syntax; evaluation of the expression text itself is C07/C08 (not claimed)"),
@@ -22,10 +22,10 @@ TEXT = {
          "non-consecutive repeats of one file are not generated; scenario names for -n are taken from the census"),
  "C12": ("fault_enumeration", "run-sim", "5.C12",
          "For each sampled world every hook invocation of the fault-free run is an injection point (x Exception/AssertionError), plus sampled pairs: each faulted run must be accepted by the must/may hook grammar (strict nesting, after-phase always paired, no body under a failed before-hook, no hooks for skipped elements / dry-run), mark exactly the element concerned, fail the run, and leave bystanders as in the fault-free run.",
-         "enumeration is complete per sampled world (<= 40 invocations), worlds are sampled; KeyboardInterrupt inside hooks is not injected (unspecified)"),
+         "enumeration is complete per sampled world (<= 40 invocations), worlds are sampled; a KeyboardInterrupt inside a hook is outside C12's quantifier (it is injected for C01/C13/C14/C16/C18, where only end-of-run obligations are checked)"),
  "C13": ("exploration", "run-sim", "5.C13",
          "Hooks and steps at every level set / shadow / delete / probe context attributes and register cleanups (plain, args, layer=, generator fixtures, failing setup) with some cleanups raising; every probe is compared with a dict-stack model and the cleanup log with the LIFO exactly-once model at the scope boundaries the acceptor tracks; execute_steps must restore text/table. For every 4th world each registered cleanup raises once (plus a pair). A context history machine drives a real Context directly through seeded operation histories (push/pop/set/get/delete/contains/set-root/use_or_assign/use_or_create/add_cleanup variants/use_fixture variants, user and behave mode) with ALL subsets of raising cleanups for histories with <= 4 cleanups.",
-         "the context machine uses Context._push/_pop/_do_cleanups/_set_root_attribute, the calls the runner itself makes"),
+         "the context machine uses Context._push/_pop/_do_cleanups/_set_root_attribute, the calls the runner itself makes; after a KeyboardInterrupt inside a hook the scopes cut short must still run their cleanups (innermost first, LIFO, once)"),
  "C14": ("exploration", "run-sim", "5.C14",
          "After every simulated run a census of the real model is compared with (a) the text printed by SummaryReporter.end(), parsed for all five formats, (b) SummaryCollector fed with the same features and (c) all format functions applied to the reporter's final tables; listed failing/errored scenarios must equal the census sets. Sampled worlds covering untested remainders, hook errors, dry-run, rules, outline rows and per-scenario background copies.",
          "the summary parser is the oracle's own (regex over the documented line shapes); durations are ignored"),
@@ -40,13 +40,13 @@ TEXT = {
          "second run reuses the model's location selection (C10) as oracle"),
  "C18": ("exploration", "run-sim", "5.C18",
          "Steps, step hooks and nested steps print unique markers to stdout/stderr/logging under all 8 capture switch combinations and every outcome class (incl. KeyboardInterrupt, step-hook errors): the simulator-owned TTYs record each chunk with the callback active at that moment; probes at every callback check the identity of sys.stdout/sys.stderr and the root logger's handlers/level; failure reports must contain exactly the markers of their own scenario; with a switch off the markers must arrive on the TTY in order. For every 40th world every step call-site x outcome class is enumerated; every 211th world is re-run as a real child process (real pipes) and its per-stream marker sets compared.",
-         "in-process TTY objects stand for the real streams; logging-filter worlds only check foreign markers"),
+         "in-process TTY objects stand for the real streams; with --logging-filter a log marker is required only if every reading of the documented include/exclude rule keeps it; a KeyboardInterrupt is also injected inside hooks (streams and root logger must be restored by the end of the run)"),
  "C05": ("fault_enumeration", "file-fault simulator", "5.C05",
          "The text the parser consumes is treated as storage under fault: for every sampled valid rendered document ALL (line position x fault kind) combinations are enumerated - torn write after/inside each line, lost line, duplicated line, swapped neighbours - plus every catalogued grammar violation at every position where it is one, delivered through parse_file on the scratch disk, parse_feature, parse_rule, parse_scenario, parse_steps and parse_tags, plus multi-language line soups. The call must return or raise ParserError with a line inside the text (the injected line for catalogued faults); anything else is a violation.",
          "the parser is a pure function: there is no schedule dimension, the claim rests on the property being stated over injected faults on the consumed text; documents use English keywords (other languages in soups only)"),
  "C11": ("exploration", "registry history machine + run-sim", "5.C11",
          "A real StepRegistry is driven through seeded registration histories (three matcher kinds, matcher switches inside and across generated step modules on disk, custom type converters with injected faults, deliberate overlaps, module re-loads) and probed with lookups built from each pattern (exact instance, wrong case, prefix/suffix, changed literal); a reference registry with the model's own anchored regexes predicts the chosen definition, every Argument (value, name, span, original) and where AmbiguousStep is required. Run-sim worlds add the end-to-end part: the shim records which definition the real Step.run dispatched with which positional/keyword arguments.",
-         "cucumber-expression matcher and re0 are not generated; an identical pattern registered twice may or may not be rejected (the statement is silent)"),
+         "cucumber-expression matcher and re0 are not generated; an identical pattern registered twice may or may not be rejected (the statement is silent); cfparse cardinality fields (? + *) on the custom types, re-registered converters and lookups between module loads are part of the histories"),
  "C06": ("exploration", "run-sim + outline histories", "5.C06",
          "Outline-dense worlds; the row scenarios of the real model after the run (count, order, name under the configured annotation schema, tags incl. examples-block tags and parametrised tags, row line, step text / doc-string / step-table after substitution) are compared with the model's own expansion of the abstract outline; histories: a hook changes an examples table through the table API (add_row / add_column) before the outline runs and the expansion must be rebuilt; a step mutates its own context.table mid-run and neither later rows nor the template may change.",
          "the expansion oracle uses sequential textual replacement of <column> by the row's cell, as the statement says; reset()+second run of a whole model is not driven"),
